@@ -80,6 +80,9 @@ var baseTables = map[string][]string{
 	"Nidn": {"пример", "пример.рф", "bücher.example", "例え.jp", "ПРИМЕР.РФ", "a.ü", "ü", "xn--a.ü.example", "host.Ελλάδα"},
 	"Nbad": {"a..b", ".", "example.com.", "a.123", "a.b_", "-", "a-", "123", "_host", "a.-b", "exa%mple", ".com", "a.b.", "1.2.3.4.",
 		rep("l", 64) + ".com", "com." + rep("l", 64), nameOfLen(254), nameOfLen(300), "host_", "a.b!c", "~", "a,b", "\"q\"", "0"},
+	// INV: invisible prefixes - BOM, truncated BOMs, zero width space, NBSP,
+	// word joiner, soft hyphen.  Ordinary bytes for the hosts format.
+	"INV": {"\xef\xbb\xbf", "\xef", "\xef\xbb", "\u200b", "\u00a0", "\u2060", "\u00ad", "\xef\xbb\xbf\xef\xbb\xbf"},
 	"CMT": {"!c!", "~", "%%", "a,b", "(x)", "=", "_", "c!"},
 	"CR":  {"\r"},
 	"SP":  {" "},
@@ -255,6 +258,12 @@ func GetTables() (*Tables, error) {
 					if isASCII(s) != (tok == "N") {
 						bad(tok, s, "ASCII / non-ASCII in the wrong table")
 					}
+				case "INV":
+					// an invisible prefix is never an address and, alone, a
+					// (non-ASCII) name for the reference
+					if aerr == nil || nerr != nil || isASCII(s) {
+						bad(tok, s, "not a non-ASCII text that only ValidateDomainName accepts")
+					}
 				case "Abad", "Nbad", "CMT", "CR":
 					if aerr == nil || nerr == nil {
 						bad(tok, s, "accepted by a reference function")
@@ -392,8 +401,8 @@ func Image(toks []string) []string {
 			} else {
 				all, idn := true, false
 				for _, p := range toks[i:j] {
-					all = all && (p == "N" || p == "Nidn")
-					idn = idn || p == "Nidn"
+					all = all && (p == "N" || p == "Nidn" || p == "INV")
+					idn = idn || p == "Nidn" || p == "INV"
 				}
 				if all && idn {
 					tok = "Nidn"
@@ -1123,6 +1132,9 @@ func RandomLine(rng *rand.Rand, tb *Tables, maxFields int) []byte {
 		}
 		switch rng.IntN(9) {
 		case 8:
+			if rng.IntN(3) == 0 {
+				return pick("INV") + pick("N", "Nidn", "A4", "Nbad")
+			}
 			return pick("Nbad#ace", "Nbad#ace", "N#ace", "Nidn#ace")
 		case 0, 1, 2, 3:
 			return mutate(pick("N", "Nidn", "A4", "A6", "A6z", "Nbad"))
@@ -1137,6 +1149,10 @@ func RandomLine(rng *rand.Rand, tb *Tables, maxFields int) []byte {
 	}
 	if rng.IntN(4) == 0 {
 		sep()
+	}
+	if rng.IntN(15) == 0 {
+		// an invisible prefix (byte order mark, ...) glued to the first field
+		b = append(b, pick("INV")...)
 	}
 	nf := 0
 	switch r := rng.IntN(20); {
